@@ -93,7 +93,7 @@ func (r *Receiver) Receive(m Message, from uint16) {
 			return
 		}
 		r.Logger.Debugf("Got ack {sender: %d, digest: %s, round: %d} from %d",
-			sender, hex.EncodeToString(digest[:8]), msgRound, from)
+			sender, digestPrefix(string(digest)), msgRound, from)
 		r.registerMsg(msgReception{
 			digest:   string(digest),
 			msgRound: msgRound,
@@ -118,7 +118,15 @@ func (r *Receiver) Receive(m Message, from uint16) {
 	r.BroadcastAck(reception.digest, reception.sender, reception.msgRound)
 
 	r.Logger.Debugf("Got broadcast of round %d with digest %s from %d, broadcasting its digest",
-		reception.msgRound, hex.EncodeToString([]byte(reception.digest[:8])), from)
+		reception.msgRound, digestPrefix(reception.digest), from)
+}
+
+// digestPrefix returns a short printable prefix of a digest, which may come from the network and be of any length.
+func digestPrefix(digest string) string {
+	if len(digest) > 8 {
+		digest = digest[:8]
+	}
+	return hex.EncodeToString([]byte(digest))
 }
 
 func (r *Receiver) initIfNeeded() {
@@ -140,7 +148,7 @@ func (r *Receiver) registerMsg(ack msgReception, from uint16, msg Message) {
 	st := senderAndRound{s: ack.sender, r: ack.msgRound}
 	if savedDigest, exists := r.receivedRoundFromSender[st]; !exists {
 		r.Logger.Debugf("Registering  %s {sender: %d, digest: %s, round: %d} %s",
-			msgOrAck, ack.sender, hex.EncodeToString([]byte(ack.digest[:8])), ack.msgRound, receivedFrom)
+			msgOrAck, ack.sender, digestPrefix(ack.digest), ack.msgRound, receivedFrom)
 		r.receivedRoundFromSender[st] = ack.digest
 	} else if savedDigest != ack.digest {
 		r.Logger.Debugf("Detected conflicting digests for {sender: %d, round: %d}: %s vs %s",
@@ -164,11 +172,11 @@ func (r *Receiver) registerMsg(ack msgReception, from uint16, msg Message) {
 	// Forward the message exactly once: as soon as enough parties vouched for it and we hold the message itself.
 	if len(r.reception[ack].idSet) >= r.N-1 && r.reception[ack].m != nil && !r.reception[ack].forwarded {
 		r.Logger.Debugf("Collected enough acknowledgements (from %v) on {sender: %d, digest: %s, round: %d}",
-			r.reception[ack].idSet, ack.sender, hex.EncodeToString([]byte(ack.digest[:8])), ack.msgRound)
+			r.reception[ack].idSet, ack.sender, digestPrefix(ack.digest), ack.msgRound)
 		r.reception[ack].forwarded = true
 		r.ForwardToBackend(r.reception[ack].m, ack.sender)
 	} else {
 		r.Logger.Debugf("%d more acknowledgements on  {sender: %d, digest: %s, round: %d} are expected",
-			r.N-1-len(r.reception[ack].idSet), ack.sender, hex.EncodeToString([]byte(ack.digest[:8])), ack.msgRound)
+			r.N-1-len(r.reception[ack].idSet), ack.sender, digestPrefix(ack.digest), ack.msgRound)
 	}
 }
